@@ -24,6 +24,9 @@ var errConnReset = errors.New("read: connection reset by peer (injected)")
 // simTransport is an http.RoundTripper that delivers requests to a handler
 // in process, following a script of injected responses first.
 type simTransport struct {
+	// mu guards the bookkeeping below: outside a bubble the clients are real goroutines (AssembleFile's workers in
+	// C03). It is never held across a call into the handler.
+	mu       sync.Mutex
 	h        http.Handler
 	script   []respScript // consumed one per request
 	requests []string     // METHOD path of every request seen
@@ -49,18 +52,20 @@ func (s *shortBody) Read(p []byte) (int, error) {
 func (s *shortBody) Close() error { return nil }
 
 func (t *simTransport) RoundTrip(req *http.Request) (*http.Response, error) {
-	t.requests = append(t.requests, req.Method+" "+req.URL.Path)
 	var body []byte
 	if req.Body != nil {
 		body, _ = io.ReadAll(req.Body)
 		req.Body.Close()
 	}
 	var sc respScript
+	t.mu.Lock()
+	t.requests = append(t.requests, req.Method+" "+req.URL.Path)
 	if len(t.script) > 0 {
 		sc, t.script = t.script[0], t.script[1:]
 	} else {
 		sc = respScript{"ok"}
 	}
+	t.mu.Unlock()
 	mk := func(code int, b []byte) *http.Response {
 		return &http.Response{StatusCode: code, Status: http.StatusText(code), Body: io.NopCloser(bytes.NewReader(b)), Header: http.Header{}, Request: req, ContentLength: int64(len(b)), Proto: "HTTP/1.1", ProtoMajor: 1, ProtoMinor: 1}
 	}
@@ -77,7 +82,9 @@ func (t *simTransport) RoundTrip(req *http.Request) (*http.Response, error) {
 		}
 		res := rec.Result()
 		res.Request = req
+		t.mu.Lock()
 		t.lastStatus, t.lastBodyLen = rec.Code, rec.Body.Len()
+		t.mu.Unlock()
 		return res
 	}
 	switch sc.kind {
